@@ -14,6 +14,8 @@
                                   for ANY tables
      L_respace_accept_statement   ... with the generated tables: an accepted query stays accepted and parses to a
                                   tree equal up to layout
+     L_respace_glued_statement    chunked form: the tokens cut into groups, the chunks glued by non-empty blank
+                                  separators (the shape of the pretty-printer's output); _accept: with parse
      L_respace_token_statement    the per-token lemma the proof stands on
      L_respace_no_sep_condition_statement   REFUTED: condition (b) (separators are kept) cannot be dropped:
                                   `xT12 :30` -> `xT12:30` (time rule) and `a b` -> `ab` *)
@@ -58,6 +60,38 @@ Proof.
   pose proof (L_respace_parse gen_tables s toks toks' Hl Hne Hr) as H.
   unfold parse, parse_full in *. destruct (parse_with gen_tables s) as [r1 e1|]; [|discriminate].
   destruct (parse_with gen_tables (render toks')) as [r2 e2|]; [|contradiction]. simpl in H.
+  inversion Hp; subst. destruct r2 as [t2|[m|m|n]]; simpl in H; try discriminate.
+  exists t2. split; [reflexivity|]. inversion H. reflexivity.
+Qed.
+
+(* ---- chunked form (the shape of a pretty-printer's output): the tokens of s are cut into non-empty
+   consecutive groups; a chunk is the text a group covers in s without the tail of its last token
+   (`group_text`); the chunks glued by non-empty blank separators (`wglued`), after a blank head, lex to
+   the tokens of s *)
+Definition L_respace_glued_statement : Prop :=
+  forall s toks groups h p', lex s = (toks, None) -> toks <> [] ->
+    toks = concat groups -> Forall (fun g => g <> []) groups ->
+    all_space h = true -> wglued (map group_text groups) p' ->
+    map tok_key (fst (lex (h ++ p'))) = map tok_key toks /\ snd (lex (h ++ p')) = None.
+Theorem L_respace_glued : L_respace_glued_statement.
+Proof. exact L_respace_glued_main. Qed.
+
+Definition L_respace_glued_accept_statement : Prop :=
+  forall s t groups h p', parse s = Some (Ok t) ->
+    fst (lex s) = concat groups -> Forall (fun g => g <> []) groups ->
+    all_space h = true -> wglued (map group_text groups) p' ->
+    exists t', parse (h ++ p') = Some (Ok t') /\ erase t' = erase t.
+Theorem L_respace_glued_accept : L_respace_glued_accept_statement.
+Proof.
+  intros s t groups h p' Hp Hcat Hg Hh Hgl. destruct (parse_ok_lexes s t Hp) as [He Hne].
+  destruct (lex s) as [toks e] eqn:Hl. simpl in *. subst e.
+  destruct (L_respace_glued s toks groups h p' Hl Hne Hcat Hg Hh Hgl) as [Hk Hn].
+  assert (H : outcome_sim (parse_with gen_tables s) (parse_with gen_tables (h ++ p'))).
+  { apply parse_layout_independent.
+    - rewrite Hl. simpl. symmetry. exact Hk.
+    - rewrite Hl. simpl. split; intros _; [exact Hn|reflexivity]. }
+  unfold parse, parse_full in *. destruct (parse_with gen_tables s) as [r1 e1|]; [|discriminate].
+  destruct (parse_with gen_tables (h ++ p')) as [r2 e2|]; [|contradiction]. simpl in H.
   inversion Hp; subst. destruct r2 as [t2|[m|m|n]]; simpl in H; try discriminate.
   exists t2. split; [reflexivity|]. inversion H. reflexivity.
 Qed.
@@ -140,6 +174,23 @@ Proof.
   split; [exact Hr|]. destruct q_all_lexes as [Hl _].
   apply (L_respace q_all q_all_toks q_all' Hl); [discriminate|exact Hr].
 Qed.
+(* chunked form on q_all: groups of sizes 2,2,1,2,3,1,3; chunks glued by newline + blanks *)
+Definition q_all_groups : list (list token) := cut [2;2;1;2;3;1;3] q_all_toks.
+Definition q_all_glued : str := join [10;32;32]%N (map group_text q_all_groups).
+Example L_respace_ex_glued :
+  q_all_toks = concat q_all_groups /\ Forall (fun g => g <> []) q_all_groups /\
+  wglued (map group_text q_all_groups) q_all_glued /\
+  map tok_key (fst (lex ([32] ++ q_all_glued)%N)) = map tok_key q_all_toks.
+Proof.
+  assert (H1 : q_all_toks = concat q_all_groups) by reflexivity.
+  assert (H2 : Forall (fun g => g <> []) q_all_groups) by (repeat constructor; discriminate).
+  assert (H3 : wglued (map group_text q_all_groups) q_all_glued).
+  { apply wglued_join; [discriminate|reflexivity|discriminate]. }
+  split; [exact H1|]. split; [exact H2|]. split; [exact H3|].
+  destruct q_all_lexes as [Hl _].
+  apply (L_respace_glued q_all q_all_toks q_all_groups [32]%N q_all_glued Hl); auto. discriminate.
+Qed.
+
 (* the accept corollary applies to a parsed query (C18's example: f:(a OR b) AND NOT PHRASE(c d)~2), re-spaced *)
 Definition q_ok : str :=
   [102;58;40;97;32;79;82;32;98;41;32;65;78;68;32;78;79;84;32;34;99;32;100;34;126;50]%N.
@@ -164,5 +215,7 @@ Proof. vm_compute. repeat split; reflexivity. Qed.
 Print Assumptions L_respace.
 Print Assumptions L_respace_parse.
 Print Assumptions L_respace_accept.
+Print Assumptions L_respace_glued.
+Print Assumptions L_respace_glued_accept.
 Print Assumptions L_respace_token.
 Print Assumptions L_respace_no_sep_condition_refuted.
